@@ -8,7 +8,8 @@ PROOF_MODULES = ["GrpcProofs.Properties.C39"]
 THEOREMS = ["GrpcProofs.C39." + t for t in (
     "run_reach", "in_use_is_first_usable", "not_usable_means_failed_or_timed_out",
     "lower_started_only_after_higher_failed_or_timed_out", "lower_closed_when_higher_ready",
-    "parent_picker_is_in_use_childs", "init_timer_only_before_failure")]
+    "parent_picker_is_in_use_childs", "init_timer_only_before_failure",
+    "started_iff_active_in_balancer_group", "stopped_child_is_cached_or_closed")]
 DESIGN_REF = "DESIGN.md section 8, C39"
 TECHNIQUE = "Lean 4 inductive invariant over an executable model of the priority policy (+ the balancer group's sub-balancer cache) + T2 correspondence under testing/synctest"
 LEVEL_TEXT = ("Machine-checked proof of an inductive invariant of a model of the priority policy, for every history of config updates "
